@@ -172,7 +172,7 @@ static int e1_variants(int e, int *out) {
 }
 static void *pair_t(void *arg) { int which = (int) (intptr_t) arg; int e = which ? pair_b : pair_a; int vs[24]; int nv = pair_single ? e1_variants(e, vs) : pair_variants(e, vs);
 	for (int i = 0; i < nv; i++) run_entry(e, vs[i]);
-	if (which && pair_rx_mode == 1) queue_rx_batch();
+	if (which && pair_rx_mode >= 1) queue_rx_batch();
 	return NULL; }
 static void c10_pair_child(const void *job, size_t n) {
 	vs_dev_t devs[VS_MAXDEV]; int nd; size_t pl; const uint8_t *p = job_parse(job, n, devs, &nd, &pl);
@@ -187,10 +187,11 @@ static void c10_pair_child(const void *job, size_t n) {
 	hx_hash_t h; hx_hash_init(&h); long npairs = 0;
 	for (int k = from; k < from + count && k < NE * NE; k++) {
 		pair_a = k / NE; pair_b = k % NE;
-		char what[200]; snprintf(what, sizeof what, "H5 %s || %s || receiver(batch %s)", entry_name(pair_a), entry_name(pair_b), pair_rx_mode ? "last" : "first");
+		char what[200]; snprintf(what, sizeof what, "H5 %s || %s || receiver(batch %s)", entry_name(pair_a), entry_name(pair_b), pair_rx_mode == 2 ? "before and after" : pair_rx_mode ? "last" : "first");
 		hx_set_context(what); res_progress(k);
 		vs_sleep_us(2500000); hx_quiesce();
 		san_reset(); san_tsan_ignore(0);
+		if (pair_rx_mode == 2) { queue_rx_batch(); vs_point(); hx_quiesce(); }      /* populate first, so that the update AFTER the calls replaces state the calls have read */
 		if (pair_rx_mode == 0) queue_rx_batch();
 		vs_window(1);
 		int t1 = vs_spawn(pair_t, (void *) (intptr_t) 0), t2 = vs_spawn(pair_t, (void *) (intptr_t) 1);
@@ -315,7 +316,7 @@ static void padd(long from, long count, int mode) { if (count <= 0) return; if (
 static size_t pair_payload(const pjob_t *j, uint8_t *payload) { memcpy(payload, &j->from, 4); memcpy(payload + 4, &j->count, 4); payload[8] = j->rx_mode; payload[9] = j->single; return 10; }
 static size_t pair_gen(long idx, uint8_t *payload, char *human, size_t hn) {
 	pjob_t *j = &pjobs[pround_base + idx]; int NE = N_HL + N_LL;
-	snprintf(human, hn, "%spairs %d..%d (first: %s || %s) receiver batch %s", j->count == 1 ? "single case " : "", j->from, j->from + j->count - 1, entry_name(j->from / NE), entry_name(j->from % NE), j->rx_mode ? "last" : "first");
+	snprintf(human, hn, "%spairs %d..%d (first: %s || %s) receiver batch %s", j->count == 1 ? "single case " : "", j->from, j->from + j->count - 1, entry_name(j->from / NE), entry_name(j->from % NE), j->rx_mode == 2 ? "before and after" : j->rx_mode ? "last" : "first");
 	return pair_payload(j, payload);
 }
 static long presume[4096][2]; static int npresume;
@@ -332,6 +333,10 @@ static void run_pairs(int thorough, int tsan, long *execs, long *states, long *t
 	for (int mode = 0; mode <= (thorough ? 1 : 0); mode++) for (int a = 0; a < NE; a++) { if (excluded_entry(a)) continue;
 		/* one job per row a; pairs with an excluded b are skipped in the child by splitting the row */
 		int b0 = 0; for (int b = 0; b <= NE; b++) if (b == NE || excluded_entry(b)) { padd((long) a * NE + b0, b - b0, mode); planned += b - b0; b0 = b + 1; } }
+	/* the receiver batch BEFORE (state populated) and AFTER the calls, for every call paired with itself — a getter that reads
+	 * something after it has dropped the lock is only unordered against an update that comes later and replaces what it read
+	 * (happens-before needs no real overlap) */
+	for (int a = 0; a < NE; a++) if (!excluded_entry(a)) { padd((long) a * NE + a, 1, 2); planned++; }
 	/* split rows into batches of 48 pairs */
 	{ long n0 = npjobs; pjob_t *old = malloc(sizeof(pjob_t) * (size_t) n0); memcpy(old, pjobs, sizeof(pjob_t) * (size_t) n0); npjobs = 0;
 	  for (long i = 0; i < n0; i++) for (long s0 = 0; s0 < old[i].count; s0 += 48) padd(old[i].from + s0, old[i].count - s0 < 48 ? old[i].count - s0 : 48, old[i].rx_mode); free(old); }
